@@ -246,6 +246,11 @@ int sm2_fast_verify(const SM2_Z256_POINT point_table[16], const uint8_t dgst[32]
 	sm2_z256_point_mul_generator(&R, s);
 	sm2_z256_point_mul_ex(&T, t, point_table);
 	sm2_z256_point_add(&R, &R, &T);
+	// s * G + t * P may be the point at infinity (s + t * d = 0), which has no x coordinate: not a valid signature
+	if (sm2_z256_is_zero(R.Z)) {
+		error_print();
+		return -1;
+	}
 	sm2_z256_point_get_xy(&R, x, NULL);
 
 	// e = H(M)
@@ -309,6 +314,11 @@ int sm2_do_verify(const SM2_KEY *key, const uint8_t dgst[32], const SM2_SIGNATUR
 	sm2_z256_point_mul_generator(&R, s);
 	sm2_z256_point_mul(&T, t, &key->public_key);
 	sm2_z256_point_add(&R, &R, &T);
+	// s * G + t * P may be the point at infinity (s + t * d = 0), which has no x coordinate: not a valid signature
+	if (sm2_z256_is_zero(R.Z)) {
+		error_print();
+		return -1;
+	}
 	sm2_z256_point_get_xy(&R, x, NULL);
 
 	// e = H(M)
